@@ -35,7 +35,7 @@ def check(run, repo):
     for m_ in ('get_HoRT', 'get_GoRT', 'fit_HoRT_offset', 'get_descriptors', 'get_descriptors_matrix'):
         run.fn(REFS + '.' + m_)
     # ---- application ---------------------------------------------------------
-    I = Interp(repo, max_depth=10)
+    I = Interp(repo)
     D = I.D
     T, Tr = D.sym('T'), D.sym('T_ref')
     oA, oB = D.sym('offA'), D.sym('offB')
@@ -74,7 +74,7 @@ def check(run, repo):
     # ---- fitting ---------------------------------------------------------------
     n_fit = 0
     for comps in ((('A', 'B'), ('A', 'B')), (('A', 'B'), ('B',), ('A', 'B', 'C')), (('A',), ('A', 'B'))):
-        I = Interp(repo, max_depth=12)
+        I = Interp(repo)
         D = I.D
         Tr = D.sym('Tr')
         sols = {}
